@@ -32,7 +32,20 @@ def replay_one(task):
     for i, x in enumerate(exp):
         if x["ood"]:
             continue
+        held, first = None, None
+        if i % 2 == 1:
+            # the caller still holds a partially consumed report of the SAME instance from the SAME validator (an earlier
+            # `for error in v.iter_errors(x): ... break`-style use): the next report is complete all the same, and so is
+            # the held one when it is resumed afterwards
+            held = v.iter_errors(_INST[i])
+            first = outcome_of(lambda: next(held, None))
         r = outcome_of(lambda: list(v.iter_errors(_INST[i])))
+        if held is not None and first[0] == "ok":
+            rest = outcome_of(lambda: list(held))
+            if rest[0] == "ok":
+                whole = ([first[1]] if first[1] is not None else []) + rest[1]
+                if sorted(errrec.canon_obs(errrec.obs_err(e)) for e in whole) != sorted(errrec.canon_spec(e) for e in x["errs"]):
+                    out.append(("spec_bag_resumed_report", i, [errrec.plain_err(e) for e in whole], x["errs"]))
         if r[0] != "ok":
             out.append(("raises", i, r[1:], None))
             continue
@@ -73,7 +86,7 @@ def record_one(task):
             from harness.c07 import autoviv
             I = autoviv(I)
         try:
-            rec, plain = errrec.make_record(i * 3 + j, d, cls, S, I, loc=loc, with_restr=True)
+            rec, plain = errrec.make_record(i * 3 + j, d, cls, S, I, loc=loc, with_restr=True, hold=(j == 1))
             out.append(("rec", rec, S, I, plain))
         except Unencodable:
             out.append(("unencodable",))
